@@ -36,7 +36,11 @@ func (p *Prog) identName(id *ast.Ident) string {
 		if o.Parent() != nil && o.Parent().Parent() == types.Universe {
 			return o.Pkg().Name() + "." + o.Name()
 		}
-		return fmt.Sprintf("%s#%d", o.Name(), p.Fset.Position(o.Pos()).Line)
+		name := o.Name()
+		if r, ok := p.Rename[obj]; ok {
+			name = r // spelled as on the reviewed tree
+		}
+		return fmt.Sprintf("%s#%d", name, p.Fset.Position(o.Pos()).Line)
 	case *types.Const:
 		if o.Pkg() != nil && o.Pkg() != p.Types {
 			return o.Pkg().Name() + "." + o.Name()
@@ -62,7 +66,11 @@ func (p *Prog) identName(id *ast.Ident) string {
 // VarKey is the canonical name of a variable object.
 func (p *Prog) VarKey(o types.Object) string {
 	if v, ok := o.(*types.Var); ok && !v.IsField() && v.Parent() != p.Types.Scope() && v.Pkg() != nil {
-		return fmt.Sprintf("%s#%d", v.Name(), p.Fset.Position(v.Pos()).Line)
+		name := v.Name()
+		if r, ok := p.Rename[o]; ok {
+			name = r // the name this parameter / receiver had on the reviewed tree
+		}
+		return fmt.Sprintf("%s#%d", name, p.Fset.Position(v.Pos()).Line)
 	}
 	return o.Name()
 }
